@@ -177,7 +177,9 @@ DoCache ==
     /\ LET mon == IF Ev.cli \in DOMAIN cmons THEN cmons[Ev.cli] ELSE [t \in {} |-> 0]
            want == MonitoredPart(dbs[Ev.db], mon)
            got == MonitoredPart(DbJ(Ev.rows), [t \in Tables |-> IF t \in DOMAIN mon THEN mon[t] ELSE <<>>])
-       IN  Chk(got = want, "C01", "the client's cache is not the monitored part of the database",
+       IN  Chk(got = want, IF Ev.when = "reconnected" THEN "C16" ELSE "C01",
+               IF Ev.when = "reconnected" THEN "after reconnecting the client's cache did not converge to the monitored part of the database"
+               ELSE "the client's cache is not the monitored part of the database",
                [cli |-> Ev.cli, when |-> Ev.when, rows |-> DiffRows(got, want)])
     /\ UNCHANGED <<dbs, mons, cmons>>
 
@@ -215,6 +217,28 @@ DoEvents ==
     /\ Chk(\A g, h \in DOMAIN Ev.handlers : Ev.handlers[g] = Ev.handlers[h], "C14", "handlers saw different event sequences", [cli |-> Ev.cli])
     /\ UNCHANGED <<dbs, mons, cmons>>
 
+\* ---- reconnect runs (property C16)
+\* the database as observed once everything has settled (concurrent client
+\* transactions are not recorded one by one in these runs)
+DoSync ==
+    /\ Ev.ev = "sync"
+    /\ dbs' = Override(dbs, [k \in {Ev.db} |-> DbJ(Ev.post)])
+    /\ UNCHANGED <<mons, cmons>>
+
+DoReconn ==
+    /\ Ev.ev = "reconn"
+    /\ Chk(Ev.connected, "C16", "the client does not report being connected again after the faults stopped", [cli |-> Ev.cli])
+    /\ UNCHANGED <<dbs, mons, cmons>>
+
+\* a Transact call that returned results was applied exactly once, one that returned an error at most once
+DoMarker ==
+    /\ Ev.ev = "marker"
+    /\ LET n == Cardinality({u \in DOMAIN dbs[Ev.db][Ev.table] : dbs[Ev.db][Ev.table][u].name = Ev.name})
+       IN  Chk(IF Ev.outcome = "results" THEN n = 1 ELSE n <= 1, "C16",
+               "a Transact call that returned results was not applied exactly once (or one that returned an error more than once)",
+               [marker |-> Ev.name, outcome |-> Ev.outcome, applied |-> n])
+    /\ UNCHANGED <<dbs, mons, cmons>>
+
 \* the client after a forced schedule: still connected, no Monitor call failed, nothing hangs
 DoHealth ==
     /\ Ev.ev = "health"
@@ -226,7 +250,7 @@ DoHealth ==
 
 Next ==
     \/ /\ l <= Len(Trace)
-       /\ (DoReset \/ DoLoad \/ DoTxn \/ DoMonitor \/ DoCMonitor \/ DoCache \/ DoHealth \/ DoEvents)
+       /\ (DoReset \/ DoLoad \/ DoTxn \/ DoMonitor \/ DoCMonitor \/ DoCache \/ DoHealth \/ DoEvents \/ DoSync \/ DoReconn \/ DoMarker)
        /\ l' = l + 1
        /\ UNCHANGED done
     \/ /\ l = Len(Trace) + 1
